@@ -17,7 +17,8 @@ fn vec_fr_bytes(v: &[BigUint]) -> Vec<u8> {
 
 fn ffi_out(f: impl FnOnce(*const Buffer, *mut Buffer) -> bool, input: &[u8]) -> Result<Vec<u8>, String> {
     let inb = Buffer { ptr: input.as_ptr(), len: input.len() };
-    let mut outb = Buffer { ptr: std::ptr::null(), len: 0 };
+    static STALE: [u8; 5] = *b"STALE";
+    let mut outb = Buffer { ptr: STALE.as_ptr(), len: STALE.len() };
     let ok = f(&inb as *const Buffer, &mut outb as *mut Buffer);
     if !ok {
         return Err("ffi returned false".into());
